@@ -534,8 +534,9 @@ def run(chk, tier, replay):
         "Reference files: TLA+ reference writer (ParquetWrite.SerFile); the generator checks with the TLA+ reference reader that content and statistics are recovered",
         "Helpers take one value_len for both query bounds: BYTE_ARRAY queries with two bounds use bounds of equal length"]
     t0 = time.time()
-    sc = SelfCheck(tier)
-    sc.start()
+    sc = None if replay else SelfCheck(tier)
+    if sc:
+        sc.start()
     binary = common.build_harness("h_stats")
     execs, meta, parts = [], {}, {}
     plan = (("b_builder", lambda: part_builder(chk, tier, binary)),
@@ -595,7 +596,8 @@ def run(chk, tier, replay):
             chk.violation("c16:prune:unsound-under-every-admissible-order:" + typ,
                           "%s pruning has a false negative under each admissible order (different files): %s" % (typ, per),
                           {"part": "c", "witnesses": {o: dict(meta.get(cid, {}), op=op) for o, (cid, op) in per.items()}})
-    sc.join_ok(chk)
+    if sc:
+        sc.join_ok(chk)
     chk.part("time", total_s=round(time.time() - t0, 1))
     chk.cov["rule"] = ("evaluations = harness cases judged by StatsTrace: (a) write histories x (codec, page size); (b) builder call sequences "
                        "(every prefix builds); (c) (file, column, operator, probe) queries, each covering all row groups and 4 caps; (d) helper calls. "
